@@ -195,8 +195,11 @@ def stratum_confusable_names(chk, n):
     doms = ["0", "10", "1", "00"]
     texts = {"r.dom": mgmt.KINDS["dom"].model_text(), "p.dom": pdom_model_text(mgmt.KINDS["dom"])}
     cnt = 0
+    doms_digits = doms
     for i in range(n):
         how = "p.dom" if i % 2 else "r.dom"
+        # tenants whose names differ only in letter case or surrounding blanks are DIFFERENT tenants
+        doms = doms_digits if i % 4 < 2 else ["acme", "Acme", "acme ", "ACME"]
         m = casbin.Enforcer.new_model(text=texts[how])
         e = casbin.Enforcer(m)
         P, G = [], []
@@ -229,11 +232,17 @@ def stratum_confusable_names(chk, n):
                 if got != want:
                     bad = (s_, d, got, want)
                     break
+                wr = sorted(b for a, b in edges if a == s_)
+                gr = sorted(e.get_roles_for_user_in_domain(s_, d))
+                if gr != wr:
+                    bad = (s_, d, gr, wr)
+                    break
             if bad:
                 break
         if bad:
             chk.spec_fail(dict(stratum="confusable-names", domain_handed_to_g_as=how, model=texts[how], policy=P, grouping=G,
-                               request=[bad[0], bad[1], "data", "read"]), bad[2], bad[3],
+                               request=[bad[0], bad[1], "data", "read"], observed_is="roles of the subject in that domain" if isinstance(bad[2], list) else "decision"),
+                          bad[2], bad[3],
                           "a request in one domain is not decided by that domain's rules and assignments (names that are "
                           "prefixes / concatenations of each other)")
             break
